@@ -42,6 +42,11 @@ CLAIMS = {
          "category gate dominating the conversion with from/to roles (R5), to_base/from_base inverse per variant (R7), resolve_unit never guessing (R8). "
          "These are necessary conditions of the statement that hold for all 201 rows at once, which sampling tests cannot give; fp tolerances are not decided.",
          BASE_NOTE, "DESIGN.md §4 C17"),
+ "C19": ("MIR must-reach / no-path analysis of Result edges to process::exit in the CLI driver and its closures + HIR guard analysis (empty-object shortcut, merge loop, counter) + sibling lookup signature for #name",
+         "Exhaustive static decision of: every path from each evaluate_pairs / validate_portable_value / evaluate_source / parse_json_inputs call on which the result is Err must cross a switch whose Err edge reaches exit(!=0) and no output sink; "
+         "after write_outputs only exit(0) is reachable; an empty object printed directly is guarded by output_path.is_none() (R1); outputs are IndexMap end to end with no reordering (R2); stdin is parsed before the --input loop, flags merge in order with unconditional insert, "
+         "every object member is bound, one shared counter names value_N in the non-object branch (R3); #name and inputs.name share the lookup signature Environment::get(\"inputs\") -> IndexMap::get(field).copied().unwrap_or(Null) (R4). clap and tty detection are not decided.",
+         BASE_NOTE, "DESIGN.md §4 C19"),
 }
 
 _PENDING = "rule module not built yet in this round; will be claimed per DESIGN.md §4 once its check exists"
